@@ -77,7 +77,7 @@ def eval_gas(case):
         if not spread <= REL_IDENT * 10:
             viol.append(V("gas/rho-Bg-pressure-independent", f"rho_g*B_g varies by {spread:.3g} (relative) over "
                           f"pressure: {rb.min()!r}..{rb.max()!r}", case=case, observed=float(spread), tol=REL_IDENT * 10))
-        for t_sc, p_sc in ((68.0, 14.696), (60.0, 15.025)):  # other standard-condition bases passed explicitly
+        for t_sc, p_sc in ((68.0, 14.696), (60.0, 15.025), (0.0, 14.7), (32.0, 14.504)):  # other standard-condition bases passed explicitly (0 F: a value that is falsy)
             prod = [gas.density_DAK(T, q, tpc, ppc, g) * gas.b_factor_DAK(T, q, tpc, ppc, t_sc, p_sc) for q in ps[::4]]
             want_sc = M * p_sc / (R * (t_sc + 459.67) * 5.615)
             if not np.all(np.abs(np.array(prod) / want_sc - 1) <= REL_CONST):
